@@ -246,7 +246,9 @@ EB('sort-memcache', lambda t: petl.sort(t, 'a'))
 EB('sort-filecache-1', lambda t: petl.sort(t, 'a', buffersize=1))
 EB('sort-filecache-2', lambda t: petl.sort(t, 'a', buffersize=2))
 EB('sort-filecache-reverse', lambda t: petl.sort(t, 'a', buffersize=1, reverse=True))
-EB('sort-filecache-lastfield', lambda t: petl.sort(t, 'c', buffersize=1))      # key order differs from whole-row order
+EB('sort-filecache-lastfield', lambda t: petl.sort(t, 'c', buffersize=1))
+# key order is the opposite of the whole-row order
+EB('sort-filecache-negkey', lambda t: petl.sort(petl.addfield(t, 'k', lambda r: -r['b']), 'k', buffersize=1))
 EB('sort-nocache', lambda t: petl.sort(t, 'a', cache=False))
 EB('sort-nocache-buffered', lambda t: petl.sort(t, 'a', buffersize=1, cache=False))
 EB('distinct-buffered', lambda t: petl.distinct(t, 'a', buffersize=1))
